@@ -7,10 +7,11 @@ from .state import State, Obligation, fresh_of_type
 from .expr import as_bool, bnot, band, zb
 from .symex import Exec
 from .npmodel import NpMixin
+from .lazy import LazyMixin
 from .stmts import NORMAL, RETURN, RAISE
 
 
-class Engine(NpMixin, Exec):
+class Engine(LazyMixin, NpMixin, Exec):
     pass
 
 
